@@ -55,9 +55,13 @@ func main() {
 	r.Rule = "case = fresh server instance, 0-8 earlier messages (history) then one next message on one receive path " +
 		"(udp, tcp, doq, doh, upstream udp/tcp); real decode + response compared with (1) a brand-new instance given only " +
 		"the next message, (2) miekg Unpack of the message's own bytes, (3) the Lean model (slice handed to Unpack, reject " +
-		"kind, residue the pooled buffer held, bytes consumed); non-trivial = the pooled buffer held non-zero residue beyond " +
-		"the end of the next message and the next message is short/inconsistent (truncated, counts exceed content, " +
-		"pointer past its end); distinct = distinct (path, history, next) texts"
+		"kind, residue the pooled buffer held, bytes consumed); burst case = 1-3 bursts of 1-4 messages accepted before " +
+		"their workers run (udp datagrams, tcp connections, one pipelined tcp connection, a doq stream paused mid-read " +
+		"while others are served), every message checked against its own bytes and a new instance, and against the " +
+		"concurrent Lean model driven with the observed buffer identities; exchange case = UpstreamPlain.Exchange " +
+		"sequences and a tcp exchange paused mid-reply while another runs; non-trivial = the pooled buffer held non-zero " +
+		"residue beyond the end of the next message and the next message is short/inconsistent (truncated, counts exceed " +
+		"content, pointer past its end), or more than one message was in flight; distinct = distinct case texts"
 	m := hlib.StartModel(o.Model, "C06")
 	defer m.Close()
 
@@ -66,7 +70,9 @@ func main() {
 	h.boundaryCampaign()
 	h.randomCampaign()
 	h.exhaustiveTruncation()
+	h.burstCampaign()
 	h.exchangeCampaign()
+	h.concurrentExchangeCampaign()
 
 	r.ModelOps = h.modelOps
 	r.Finish()
@@ -84,15 +90,19 @@ type harness struct {
 
 type recorder struct {
 	reqs    []string
+	byAddr  map[string]string
 	invalid int
 	panics  []string
 	done    chan struct{}
 }
 
-func newRecorder() *recorder { return &recorder{done: make(chan struct{}, 64)} }
+func newRecorder() *recorder {
+	return &recorder{done: make(chan struct{}, 64), byAddr: map[string]string{}}
+}
 
 func (rc *recorder) reset() {
 	rc.reqs, rc.invalid, rc.panics = nil, 0, nil
+	rc.byAddr = map[string]string{}
 	for {
 		select {
 		case <-rc.done:
@@ -121,13 +131,27 @@ func (rc *recorder) ServeDNS(ctx context.Context, rw dnsserver.ResponseWriter, r
 			Hdr: dns.RR_Header{Name: q.Name, Rrtype: dns.TypeTXT, Class: dns.ClassINET, Ttl: 1},
 			Txt: []string{fmt.Sprintf("t%d c%d", q.Qtype, q.Qclass)},
 		})
+		if q.Qtype == dns.TypeTXT || q.Qtype == dns.TypeANY {
+			// A response that outgrows the 512-byte pooled response buffers:
+			// PackBuffer has to move to a new array.
+			for j := 0; j < 6; j++ {
+				resp.Answer = append(resp.Answer, &dns.TXT{
+					Hdr: dns.RR_Header{Name: q.Name, Rrtype: dns.TypeTXT, Class: dns.ClassINET, Ttl: 1},
+					Txt: []string{strings.Repeat(string(rune('a'+j)), 90)},
+				})
+			}
+		}
 	}
 
 	return rw.WriteMsg(ctx, req, resp)
 }
 
-func (rc *recorder) OnRequest(_ context.Context, info *dnsserver.QueryInfo, _ dnsserver.ResponseWriter) {
-	rc.reqs = append(rc.reqs, msgText(info.Request))
+func (rc *recorder) OnRequest(_ context.Context, info *dnsserver.QueryInfo, rw dnsserver.ResponseWriter) {
+	t := msgText(info.Request)
+	rc.reqs = append(rc.reqs, t)
+	if rw != nil && rw.RemoteAddr() != nil {
+		rc.byAddr[rw.RemoteAddr().String()] = t
+	}
 	rc.signal()
 }
 func (rc *recorder) OnInvalidMsg(context.Context)   { rc.invalid++; rc.signal() }
@@ -192,10 +216,14 @@ type fakePacketConn struct {
 	spy   bufSpy
 	wire  []byte
 	wrote [][]byte
+	raddr net.Addr
 }
 
 func (c *fakePacketConn) ReadFrom(p []byte) (int, net.Addr, error) {
 	c.spy.see(p)
+	if c.raddr != nil {
+		return copy(p, c.wire), c.raddr, nil
+	}
 
 	return copy(p, c.wire), raddrUDP, nil
 }
@@ -223,11 +251,24 @@ type byteStream struct {
 	failWith error
 	wrote    [][]byte
 	closed   bool
+	raddr    net.Addr
+	// gateAt > 0: the Read that starts at this offset first announces itself
+	// on reached and then blocks until gate is closed (a stream whose sender
+	// pauses while other connections are served).
+	gateAt  int
+	gate    chan struct{}
+	reached chan struct{}
+	gated   bool
 }
 
 func (c *byteStream) Read(p []byte) (int, error) {
 	if c.off >= c.skip && len(p) > 0 {
 		c.spy.see(p)
+	}
+	if c.gateAt > 0 && !c.gated && c.off >= c.gateAt {
+		c.gated = true
+		close(c.reached)
+		<-c.gate
 	}
 	if c.off >= len(c.stream) {
 		if c.failWith != nil {
@@ -262,8 +303,14 @@ func (c *byteStream) SetWriteDeadline(time.Time) error { return nil }
 
 type fakeTCPConn struct{ *byteStream }
 
-func (fakeTCPConn) LocalAddr() net.Addr  { return laddrTCP }
-func (fakeTCPConn) RemoteAddr() net.Addr { return raddrTCP }
+func (fakeTCPConn) LocalAddr() net.Addr { return laddrTCP }
+func (c fakeTCPConn) RemoteAddr() net.Addr {
+	if c.raddr != nil {
+		return c.raddr
+	}
+
+	return raddrTCP
+}
 
 type fakeQUICStream struct {
 	quic.Stream
@@ -451,11 +498,24 @@ func settle() {
 	}
 }
 
+// missedSignals counts receive operations that neither served nor rejected
+// their message (only possible when the worker goroutine died).  The first one
+// is waited for generously; once one has happened the verdict of the run is
+// already "violation" and later waits are cut short so that the run finishes
+// and reports.
+var missedSignals int
+
 func waitSignal(rec *recorder) bool {
+	d := 5 * time.Second
+	if missedSignals > 0 {
+		d = 10 * time.Millisecond
+	}
 	select {
 	case <-rec.done:
 		return true
-	case <-time.After(5 * time.Second):
+	case <-time.After(d):
+		missedSignals++
+
 		return false
 	}
 }
@@ -1493,6 +1553,640 @@ func (h *harness) exhaustiveTruncation() {
 }
 
 // ---------------------------------------------------------------------------
+// Bursts: several messages are accepted (read into pooled buffers) before the
+// workers that decode them run, or while another stream is still being read.
+// The oracle checks every message of the burst against its own bytes and
+// against a freshly started server; the correspondence drives the concurrent
+// model (acc = Get+read+guards, srv = worker) with the buffer identities the
+// fakes observed.
+
+type burstMsg struct {
+	Wire   string `json:"wire"`
+	Yield  bool   `json:"yield,omitempty"` // let the workers run after this accept
+	GateAt int    `json:"gate_at,omitempty"`
+	What   string `json:"what"`
+	wire   []byte
+}
+
+type burstSpec struct {
+	Path   string        `json:"path"`
+	Mode   string        `json:"mode"` // conns | pipeline | gated
+	Sizes  [2]int        `json:"sizes"`
+	Bursts [][]*burstMsg `json:"bursts"`
+}
+
+func (b *burstSpec) canon() string {
+	var sb strings.Builder
+	fmt.Fprintf(&sb, "burst %s %s %v", b.Path, b.Mode, b.Sizes)
+	for _, bu := range b.Bursts {
+		sb.WriteString(" |")
+		for _, m := range bu {
+			fmt.Fprintf(&sb, " %s/%v/%d", m.Wire, m.Yield, m.GateAt)
+		}
+	}
+
+	return sb.String()
+}
+
+type bufEntry struct {
+	content []byte
+	held    bool
+	rid     int
+}
+
+type burstObs struct {
+	decode   string
+	resp     string
+	rejected bool // dropped before a worker was started
+	rid      int
+}
+
+// bufTable tracks buffer identities by content, the way the fakes see them.
+type bufTable struct {
+	entries []*bufEntry
+	lines   []string
+	unknown bool
+}
+
+// pick returns the identity of the buffer whose capacity contents are seen.
+func (t *bufTable) pick(seen []byte) (id int) {
+	for i, e := range t.entries {
+		if !e.held && eqZeroPadded(e.content, seen) {
+			return i
+		}
+	}
+	for i, e := range t.entries {
+		if e.held && eqZeroPadded(e.content, seen) {
+			// The real code got a buffer the bookkeeping still considers in
+			// flight: its worker has finished (or the pool discipline is
+			// broken; then the oracle speaks).
+			t.lines = append(t.lines, fmt.Sprintf("srv %d", e.rid))
+			e.held = false
+
+			return i
+		}
+	}
+	if !allZero(seen) {
+		t.unknown = true
+	}
+	t.entries = append(t.entries, &bufEntry{content: make([]byte, len(seen))})
+
+	return len(t.entries) - 1
+}
+
+func addrFor(rid int) *net.UDPAddr {
+	return &net.UDPAddr{IP: net.IPv4(127, 0, 1, 9), Port: 10000 + rid}
+}
+
+func addrForTCP(rid int) *net.TCPAddr {
+	return &net.TCPAddr{IP: net.IPv4(127, 0, 1, 9), Port: 10000 + rid}
+}
+
+// runBurstReal executes the bursts on a warmed instance and returns what was
+// observed per message (in order) plus the model lines.
+func (h *harness) runBurstReal(bs *burstSpec) (obs []*burstObs, lines []string, unknown bool, panics []string) {
+	sz := sizes{bs.Sizes[0], bs.Sizes[1]}
+	in := newInst(sz)
+	defer in.close()
+	in.need(bs.Path)
+	tab := &bufTable{}
+	lines = []string{fmt.Sprintf("init %d %d %d %d %d", sz.udp, sz.tcp, doqSize,
+		forward.VerifC06BufSize(forward.NetworkUDP), forward.VerifC06BufSize(forward.NetworkTCP))}
+	// guard turns a panic of the code under test into an observation.
+	guard := func(f func()) {
+		defer func() {
+			if v := recover(); v != nil {
+				panics = append(panics, fmt.Sprintf("panic:%v", v))
+			}
+		}()
+		f()
+	}
+	rid := 0
+	for _, burst := range bs.Bursts {
+		in.rec.reset()
+		first := rid + 1
+		type live struct {
+			o   *burstObs
+			pc  *fakePacketConn
+			st  *byteStream
+			ent *bufEntry
+		}
+		var lv []*live
+		expect := 0
+		switch {
+		case bs.Path == pUDP:
+			for _, m := range burst {
+				rid++
+				o := &burstObs{rid: rid, decode: "invalid"}
+				c := &fakePacketConn{wire: m.wire, raddr: addrFor(rid)}
+				err := fmt.Errorf("panicked")
+				guard(func() { err = dnsserver.VerifC06AcceptUDPMsg(context.Background(), in.dnsSrv, c) })
+				n := min(len(m.wire), sz.udp)
+				id := tab.pick(c.spy.before)
+				e := tab.entries[id]
+				e.content = bytes.Clone(c.spy.ref)
+				tab.lines = append(tab.lines, fmt.Sprintf("acc %d udp %d - %s", rid, id, hx(m.wire)))
+				if err != nil || n < 12 {
+					o.rejected = true
+				} else {
+					e.held, e.rid = true, rid
+					expect++
+				}
+				lv = append(lv, &live{o: o, pc: c, ent: e})
+				if m.Yield {
+					settle()
+				}
+			}
+		case bs.Path == pTCP && bs.Mode == "conns":
+			var tcs []*dnsserver.VerifC06TCPConn
+			for _, m := range burst {
+				rid++
+				o := &burstObs{rid: rid, decode: "invalid"}
+				st := &byteStream{stream: m.wire, skip: 2, raddr: addrForTCP(rid)}
+				tc := dnsserver.VerifC06NewTCPConn()
+				tcs = append(tcs, tc)
+				err := fmt.Errorf("panicked")
+				guard(func() { err = dnsserver.VerifC06AcceptTCPMsg(in.dnsSrv, fakeTCPConn{st}, tc, time.Second) })
+				var id int
+				if st.spy.got {
+					id = tab.pick(st.spy.before)
+				} else {
+					// Nothing was read into a pooled buffer (no length prefix,
+					// or length 0): any unused identity will do for the model.
+					tab.entries = append(tab.entries, &bufEntry{content: make([]byte, sz.tcp)})
+					id = len(tab.entries) - 1
+				}
+				e := tab.entries[id]
+				if st.spy.got {
+					e.content = bytes.Clone(st.spy.ref)
+				}
+				tab.lines = append(tab.lines, fmt.Sprintf("acc %d tcp %d - %s", rid, id, hx(m.wire)))
+				if err != nil {
+					o.rejected = true
+				} else {
+					e.held, e.rid = true, rid
+				}
+				lv = append(lv, &live{o: o, st: st, ent: e})
+				if m.Yield {
+					settle()
+				}
+			}
+			for _, tc := range tcs {
+				tc.Wait()
+			}
+		case bs.Path == pTCP && bs.Mode == "pipeline":
+			// All messages of the burst arrive back to back on ONE connection.
+			var all []byte
+			for _, m := range burst {
+				all = append(all, m.wire...)
+			}
+			st := &byteStream{stream: all, raddr: addrForTCP(rid + 1)}
+			tc := dnsserver.VerifC06NewTCPConn()
+			for range burst {
+				rid++
+				o := &burstObs{rid: rid, decode: "invalid"}
+				spyBefore := st.spy
+				st.spy = bufSpy{}
+				st.skip = st.off + 2
+				off0 := st.off
+				err := fmt.Errorf("panicked")
+				guard(func() { err = dnsserver.VerifC06AcceptTCPMsg(in.dnsSrv, fakeTCPConn{st}, tc, time.Second) })
+				_ = spyBefore
+				var id int
+				if st.spy.got {
+					id = tab.pick(st.spy.before)
+				} else {
+					tab.entries = append(tab.entries, &bufEntry{content: make([]byte, sz.tcp)})
+					id = len(tab.entries) - 1
+				}
+				e := tab.entries[id]
+				if st.spy.got {
+					e.content = bytes.Clone(st.spy.ref)
+				}
+				// The model op gets exactly the bytes this accept consumed plus
+				// whatever follows (it stops at the announced length itself).
+				tab.lines = append(tab.lines, fmt.Sprintf("acc %d tcp %d - %s", rid, id, hx(all[off0:])))
+				if err != nil {
+					o.rejected = true
+				} else {
+					e.held, e.rid = true, rid
+				}
+				lv = append(lv, &live{o: o, st: st, ent: e})
+			}
+			tc.Wait()
+		case bs.Path == pDoQ:
+			// The first message of the burst pauses at GateAt while the others
+			// are received completely.
+			type doqRes struct {
+				msg *dns.Msg
+				err error
+			}
+			m0 := burst[0]
+			rid++
+			o0 := &burstObs{rid: rid, decode: "invalid"}
+			st0 := &byteStream{stream: m0.wire, gateAt: m0.GateAt, gate: make(chan struct{}), reached: make(chan struct{})}
+			done := make(chan doqRes, 1)
+			go func() {
+				defer func() {
+					if v := recover(); v != nil {
+						done <- doqRes{err: fmt.Errorf("panic:%v", v)}
+					}
+				}()
+				msg, err := dnsserver.VerifC06ReadQUICMsg(srvCtx, in.doq, fakeQUICStream{byteStream: st0})
+				done <- doqRes{msg, err}
+			}()
+			var r0 *doqRes
+			select {
+			case <-st0.reached:
+			case r := <-done:
+				r0 = &r
+			case <-time.After(5 * time.Second):
+			}
+			id0 := tab.pick(st0.spy.before)
+			e0 := tab.entries[id0]
+			e0.content = bytes.Clone(st0.spy.ref)
+			e0.held, e0.rid = true, o0.rid
+			tab.lines = append(tab.lines, fmt.Sprintf("acc %d doq %d - %s", o0.rid, id0, hx(m0.wire)))
+			lv = append(lv, &live{o: o0, st: st0, ent: e0})
+			for _, m := range burst[1:] {
+				rid++
+				o := &burstObs{rid: rid, decode: "invalid"}
+				st := &byteStream{stream: m.wire}
+				var msg *dns.Msg
+				err := fmt.Errorf("panicked")
+				guard(func() { msg, err = dnsserver.VerifC06ReadQUICMsg(srvCtx, in.doq, fakeQUICStream{byteStream: st}) })
+				if err == nil {
+					o.decode = msgText(msg)
+				}
+				id := tab.pick(st.spy.before)
+				e := tab.entries[id]
+				e.content = bytes.Clone(st.spy.ref)
+				tab.lines = append(tab.lines, fmt.Sprintf("acc %d doq %d - %s", rid, id, hx(m.wire)), fmt.Sprintf("srv %d", rid))
+				lv = append(lv, &live{o: o, st: st, ent: e})
+			}
+			if r0 == nil {
+				close(st0.gate)
+				select {
+				case r := <-done:
+					r0 = &r
+				case <-time.After(5 * time.Second):
+					r0 = &doqRes{err: fmt.Errorf("panic:stream reader never returned")}
+				}
+			}
+			if r0.err == nil {
+				o0.decode = msgText(r0.msg)
+			} else if strings.HasPrefix(r0.err.Error(), "panic:") {
+				panics = append(panics, r0.err.Error())
+			}
+			e0.content = bytes.Clone(st0.spy.ref)
+		}
+		for i := 0; i < expect; i++ {
+			if !waitSignal(in.rec) {
+				break
+			}
+		}
+		settle()
+		panics = append(panics, in.rec.panics...)
+		for _, l := range lv {
+			if bs.Path != pDoQ {
+				var addr string
+				if l.pc != nil {
+					addr = l.pc.raddr.String()
+					l.o.resp = respText(l.pc.wrote, false, "")
+				} else {
+					addr = l.st.raddr.String()
+					l.o.resp = respText(l.st.wrote, true, "")
+				}
+				if bs.Mode != "pipeline" {
+					if d, ok := in.rec.byAddr[addr]; ok {
+						l.o.decode = d
+					}
+				}
+			}
+			if l.ent.held && l.ent.rid == l.o.rid {
+				tab.lines = append(tab.lines, fmt.Sprintf("srv %d", l.o.rid))
+				l.ent.held = false
+			}
+			obs = append(obs, l.o)
+		}
+		if bs.Mode == "pipeline" {
+			// One connection: decodes cannot be attributed to messages by
+			// address; keep them as the sorted multiset of the burst.
+			got := append([]string{}, in.rec.reqs...)
+			for len(got) < len(burst) {
+				got = append(got, "invalid")
+			}
+			sortStrings(got)
+			for i := range burst {
+				obs[first-1+i].decode = got[i]
+			}
+		}
+	}
+
+	return obs, append(lines, tab.lines...), tab.unknown, panics
+}
+
+func sortStrings(a []string) {
+	for i := 1; i < len(a); i++ {
+		for j := i; j > 0 && a[j] < a[j-1]; j-- {
+			a[j], a[j-1] = a[j-1], a[j]
+		}
+	}
+}
+
+// runBurst checks one burst case.  Returns the violation signatures.
+func (h *harness) runBurst(bs *burstSpec, record, report bool) (sigs []string) {
+	r := h.r
+	sz := sizes{bs.Sizes[0], bs.Sizes[1]}
+	for _, bu := range bs.Bursts {
+		for _, m := range bu {
+			if m.wire == nil && m.Wire != "" {
+				m.wire, _ = hex.DecodeString(m.Wire)
+			}
+			m.Wire = hex.EncodeToString(m.wire)
+		}
+	}
+	obs, lines, unknown, panics := h.runBurstReal(bs)
+	violate := func(kind, what string) {
+		sig := bs.Path + "-" + kind
+		sigs = append(sigs, sig)
+		if report {
+			r.Violate(sig, what, bs)
+		}
+	}
+	if len(panics) > 0 {
+		violate("panic", fmt.Sprintf("%s: receive path panicked during a burst: %s", bs.Path, clip(panics[0])))
+	}
+	// Oracle: every message against its own bytes and a freshly started server.
+	mode := ""
+	if bs.Path == pDoQ {
+		mode = "read"
+	}
+	var flat []*burstMsg
+	var burstOf []int
+	for bi, bu := range bs.Bursts {
+		for _, m := range bu {
+			flat = append(flat, m)
+			burstOf = append(burstOf, bi)
+		}
+	}
+	own := make([]string, len(flat))
+	for i, m := range flat {
+		own[i] = ownBytes(&opSpec{Path: bs.Path, wire: m.wire}, sz)
+	}
+	if bs.Mode == "pipeline" {
+		// Compare per burst as multisets.
+		start := 0
+		for _, bu := range bs.Bursts {
+			want := append([]string{}, own[start:start+len(bu)]...)
+			// A framing error ends the connection: later messages of the
+			// same stream are legitimately never read.
+			for i, m := range bu {
+				if len(m.wire) < 2 || int(binary.BigEndian.Uint16(m.wire)) != len(m.wire)-2 {
+					for j := i; j < len(bu); j++ {
+						want[j] = "invalid"
+					}
+
+					break
+				}
+			}
+			sortStrings(want)
+			for i := range bu {
+				if obs[start+i].decode != want[i] {
+					violate("concurrent-decode-mixup", fmt.Sprintf(
+						"tcp pipeline: %d messages back to back on one connection are decoded as %q, their own bytes decode as %q",
+						len(bu), clip(obs[start+i].decode), clip(want[i])))
+
+					break
+				}
+			}
+			start += len(bu)
+		}
+	} else {
+		for i, m := range flat {
+			o := obs[i]
+			if o.decode != own[i] {
+				violate("concurrent-decode-mixup", fmt.Sprintf(
+					"%s (%s): message %d of a burst of %d (%s) is decoded as %q while other messages were in flight, but its own bytes alone decode as %q",
+					bs.Path, m.What, i+1, len(bs.Bursts[burstOf[i]]), clipHex(m.wire), clip(o.decode), clip(own[i])))
+
+				break
+			}
+			if bs.Path == pDoQ {
+				continue
+			}
+			fresh := newInst(sz)
+			fres := fresh.exec((&opSpec{Path: bs.Path, Mode: mode, wire: m.wire, Pick: -1}).fill())
+			fresh.close()
+			if fres.decode == o.decode && stripClosed(fres.resp) != o.resp {
+				violate("concurrent-response-mixup", fmt.Sprintf(
+					"%s (%s): the answer to message %d of a burst (%s) is %q, a freshly started server answers %q",
+					bs.Path, m.What, i+1, clipHex(m.wire), clip(o.resp), clip(stripClosed(fres.resp))))
+
+				break
+			}
+		}
+	}
+	if !record {
+		return sigs
+	}
+	// Correspondence with the concurrent model.
+	h.m.ResetLog()
+	answers := h.m.Batch(lines)[1:]
+	h.modelOps += len(lines)
+	final := map[int]string{}
+	for i, l := range lines[1:] {
+		f := strings.Fields(l)
+		a := strings.Fields(answers[i])
+		switch f[0] {
+		case "acc":
+			if len(a) != 3 {
+				r.Disagree(bs.Path+"-burst-model", fmt.Sprintf("malformed answer %q to %q", answers[i], clip(l)), bs)
+
+				continue
+			}
+			if a[2] != "pending" {
+				final[atoi(f[1])] = a[2]
+			}
+		case "srv":
+			if _, ok := final[atoi(f[1])]; !ok || strings.HasPrefix(answers[i], "view:") {
+				final[atoi(f[1])] = answers[i]
+			}
+		}
+	}
+	if !unknown && bs.Mode != "pipeline" {
+		for i, o := range obs {
+			md := "invalid"
+			if v, ok := strings.CutPrefix(final[o.rid], "view:"); ok {
+				var b []byte
+				if v != "-" {
+					b, _ = hex.DecodeString(v)
+				}
+				md = unpackText(b)
+			} else if final[o.rid] == "ignored" || final[o.rid] == "none" || final[o.rid] == "" {
+				md = "model:" + final[o.rid]
+			}
+			if md != o.decode && !strings.HasPrefix(o.decode, "panic:") {
+				r.Disagree(bs.Path+"-burst-model", fmt.Sprintf(
+					"burst message %d (%s): real code decoded %q, the concurrent model gives %q (%s)",
+					i+1, clipHex(flat[i].wire), clip(o.decode), clip(md), clip(final[o.rid])), bs)
+
+				break
+			}
+		}
+	} else if unknown {
+		r.Count("note.burst_unknown_residue")
+	}
+	inflight := 0
+	for _, bu := range bs.Bursts {
+		inflight = max(inflight, len(bu))
+	}
+	r.Case(bs.canon(), inflight > 1)
+	r.Traces++
+	r.Count("burst." + bs.Path + "." + bs.Mode)
+	r.Count(fmt.Sprintf("burst.inflight%d", inflight))
+	if inflight > 1 {
+		r.Sample(map[string]any{"path": bs.Path, "mode": bs.Mode, "bursts": len(bs.Bursts), "in_flight": inflight,
+			"model_lines": len(lines)}, 9)
+	}
+
+	return sigs
+}
+
+func atoi(s string) (n int) {
+	_, _ = fmt.Sscan(s, &n)
+
+	return n
+}
+
+// stripClosed drops the connection-state suffix exec adds to TCP responses.
+func stripClosed(s string) string {
+	if i := strings.LastIndex(s, "/closed="); i >= 0 {
+		return s[:i+1]
+	}
+	if strings.HasPrefix(s, "closed=") {
+		return ""
+	}
+
+	return s
+}
+
+func (h *harness) checkedBurst(bs *burstSpec) {
+	sigs := h.runBurst(bs, true, false)
+	if len(sigs) == 0 {
+		return
+	}
+	want := sigs[0]
+	small := hlib.Shrink(bs.Bursts, func(b [][]*burstMsg) bool {
+		if len(b) == 0 {
+			return false
+		}
+		for _, s := range h.runBurst(&burstSpec{Path: bs.Path, Mode: bs.Mode, Sizes: bs.Sizes, Bursts: b}, false, false) {
+			if s == want {
+				return true
+			}
+		}
+
+		return false
+	})
+	if len(small) > 0 {
+		bs = &burstSpec{Path: bs.Path, Mode: bs.Mode, Sizes: bs.Sizes, Bursts: small}
+	}
+	h.runBurst(bs, false, true)
+}
+
+func (h *harness) genBurstMsg(rng *rand.Rand, path string, mangled bool) *burstMsg {
+	class := 0
+	if rng.IntN(3) == 0 {
+		class = 1 + rng.IntN(7)
+	}
+	msg, what := mutate(rng, mustPack(genQuery(rng)), class)
+	mangle := 0
+	if mangled && rng.IntN(10) == 0 {
+		mangle = 1 + rng.IntN(5)
+	}
+	wire, note := frame(rng, path, msg, mangle)
+
+	return &burstMsg{wire: wire, What: what + note, Yield: rng.IntN(4) == 0}
+}
+
+func (h *harness) burstCampaign() {
+	rng := h.o.Rand("burst")
+	n := 500
+	if h.o.Thorough() {
+		n = 12000
+	}
+	modes := []struct{ path, mode string }{{pUDP, "conns"}, {pUDP, "conns"}, {pTCP, "conns"}, {pTCP, "pipeline"}, {pDoQ, "gated"}}
+	for i := 0; i < n; i++ {
+		pm := modes[rng.IntN(len(modes))]
+		bs := &burstSpec{Path: pm.path, Mode: pm.mode, Sizes: genSizes(rng)}
+		nb := 1 + rng.IntN(3)
+		for b := 0; b < nb; b++ {
+			k := 1 + rng.IntN(4)
+			if b == nb-1 {
+				k = 2 + rng.IntN(3)
+			}
+			var burst []*burstMsg
+			for j := 0; j < k; j++ {
+				// On one pipelined connection a framing error shifts every later
+				// message; there the frames stay consistent.
+				m := h.genBurstMsg(rng, pm.path, pm.mode != "pipeline")
+				if pm.mode == "gated" && j == 0 {
+					m.GateAt = 1 + rng.IntN(max(1, len(m.wire)))
+					if len(m.wire) == 0 {
+						m.GateAt = 0
+					}
+				}
+				burst = append(burst, m)
+			}
+			bs.Bursts = append(bs.Bursts, burst)
+		}
+		h.checkedBurst(bs)
+	}
+	if h.o.Thorough() {
+		h.exhaustiveSchedules()
+	}
+}
+
+// exhaustiveSchedules: three fixed datagrams/streams, every subset of yield
+// points and every order, after every one of them as warm-up.
+func (h *harness) exhaustiveSchedules() {
+	rng := h.o.Rand("schedules")
+	q := func(name string) []byte {
+		m := &dns.Msg{}
+		m.SetQuestion(name, dns.TypeA)
+		m.Id = 0
+
+		return mustPack(m)
+	}
+	base := [][]byte{q("victim-secret-name.example.com."), q("a."), {0, 0, 1, 0, 0, 1, 0, 0, 0, 0, 0, 0}}
+	perms := [][]int{{0, 1, 2}, {0, 2, 1}, {1, 0, 2}, {1, 2, 0}, {2, 0, 1}, {2, 1, 0}}
+	for _, pm := range []struct{ path, mode string }{{pUDP, "conns"}, {pTCP, "conns"}, {pTCP, "pipeline"}, {pDoQ, "gated"}} {
+		for _, perm := range perms {
+			for yields := 0; yields < 8; yields++ {
+				for warm := 0; warm < 3; warm++ {
+					w, _ := frame(rng, pm.path, base[warm], 0)
+					bs := &burstSpec{Path: pm.path, Mode: pm.mode, Sizes: [2]int{64, 16},
+						Bursts: [][]*burstMsg{{{wire: w, What: "warm-up"}}}}
+					var burst []*burstMsg
+					for j, pi := range perm {
+						w, _ := frame(rng, pm.path, base[pi], 0)
+						m := &burstMsg{wire: w, What: fmt.Sprintf("base%d", pi), Yield: yields>>j&1 == 1}
+						if pm.mode == "gated" && j == 0 {
+							m.GateAt = 1 + (yields*5)%len(w)
+						}
+						burst = append(burst, m)
+					}
+					bs.Bursts = append(bs.Bursts, burst)
+					h.checkedBurst(bs)
+				}
+			}
+		}
+	}
+	h.r.Count("exhaustive.schedules_3_messages_done")
+}
+
+// ---------------------------------------------------------------------------
 // End to end: the public UpstreamPlain.Exchange against a scripted upstream on
 // loopback sockets (real buffer pool, real packReq, real connection pool).
 
@@ -1500,6 +2194,9 @@ type scriptedUpstream struct {
 	tcp   net.Listener
 	udp   net.PacketConn
 	reply func(nw string, req []byte) []byte
+	// slowTCP, when set, may take over writing the reply to one TCP request
+	// (returns true if it did).
+	slowTCP func(c net.Conn, req []byte) bool
 }
 
 func newScriptedUpstream() (s *scriptedUpstream, err error) {
@@ -1554,6 +2251,9 @@ func (s *scriptedUpstream) serveTCP() {
 				if _, rerr := io.ReadFull(c, req); rerr != nil {
 					return
 				}
+				if s.slowTCP != nil && s.slowTCP(c, req) {
+					continue
+				}
 				rep := s.reply("tcp", req)
 				if _, werr := c.Write(append(binary.BigEndian.AppendUint16(nil, uint16(len(rep))), rep...)); werr != nil {
 					return
@@ -1587,10 +2287,10 @@ func (h *harness) exchangeCampaign() {
 	if h.o.Thorough() {
 		n = 2500
 	}
-	var current []byte
-	srv.reply = func(string, []byte) []byte { return current }
+	var current, sent []byte
+	srv.reply = func(_ string, req []byte) []byte { sent = req; return current }
 	run := func(u *forward.UpstreamPlain, st *exchStep) string {
-		current = st.reply
+		current, sent = st.reply, nil
 		ctx, cancel := context.WithTimeout(context.Background(), 2*time.Second)
 		defer cancel()
 		resp, _, xerr := u.Exchange(ctx, st.req.Copy())
@@ -1627,9 +2327,15 @@ func (h *harness) exchangeCampaign() {
 			got = run(warm, st)
 		}
 		_ = warm.Close()
+		sentWarm := sent
 		fresh := forward.NewUpstreamPlain(conf)
 		want := run(fresh, steps[k])
 		_ = fresh.Close()
+		if sentWarm != nil && sent != nil && !bytes.Equal(sentWarm, sent) {
+			h.r.Violate("exchange-"+string(nw)+"-request-carries-residue", fmt.Sprintf(
+				"UpstreamPlain.Exchange over %s: after %d earlier exchange(s) the request written to the upstream is %s, a new UpstreamPlain writes %s",
+				nw, k, clipHex(sentWarm), clipHex(sent)), steps)
+		}
 		h.r.Count("exchange." + string(nw))
 		h.r.Case(fmt.Sprintf("exchange %s %v", nw, steps), steps[k].What != "valid")
 		if strings.Contains(got, "i/o timeout") || strings.Contains(want, "i/o timeout") {
@@ -1641,6 +2347,118 @@ func (h *harness) exchangeCampaign() {
 			h.r.Violate("exchange-"+string(nw)+"-history-dependent-decode", fmt.Sprintf(
 				"UpstreamPlain.Exchange over %s: after %d earlier exchange(s) the reply %s (%s) is returned as %q, a new UpstreamPlain returns %q",
 				nw, k, clipHex(steps[k].reply), steps[k].What, clip(got), clip(want)), steps)
+		}
+	}
+}
+
+// concurrentExchangeCampaign: exchange A over TCP is paused by the upstream in
+// the middle of its reply while exchange B runs to completion on the same
+// UpstreamPlain; A must still be decoded from its own reply.
+func (h *harness) concurrentExchangeCampaign() {
+	rng := h.o.Rand("concurrent-exchange")
+	srv, err := newScriptedUpstream()
+	if err != nil {
+		return
+	}
+	defer srv.close()
+	addr := netip.MustParseAddrPort(srv.tcp.Addr().String())
+	n := 40
+	if h.o.Thorough() {
+		n = 600
+	}
+	replies := map[uint16][]byte{}
+	var pauseID uint16
+	var split int
+	var half, release chan struct{}
+	srv.reply = func(_ string, req []byte) []byte {
+		if len(req) < 2 {
+			return []byte{0}
+		}
+
+		return replies[binary.BigEndian.Uint16(req)]
+	}
+	srv.slowTCP = func(c net.Conn, req []byte) bool {
+		if len(req) < 2 || binary.BigEndian.Uint16(req) != pauseID || half == nil {
+			return false
+		}
+		rep := replies[pauseID]
+		w := append(binary.BigEndian.AppendUint16(nil, uint16(len(rep))), rep...)
+		cut := min(len(w), 2+split)
+		_, _ = c.Write(w[:cut])
+		close(half)
+		<-release
+		_, _ = c.Write(w[cut:])
+
+		return true
+	}
+	exch := func(u *forward.UpstreamPlain, req *dns.Msg) string {
+		ctx, cancel := context.WithTimeout(context.Background(), 3*time.Second)
+		defer cancel()
+		resp, _, xerr := u.Exchange(ctx, req.Copy())
+		out := msgText(resp)
+		if xerr != nil {
+			out += " err:" + xerr.Error()
+		}
+
+		return out
+	}
+	for i := 0; i < n; i++ {
+		mk := func(id uint16, class int) (*dns.Msg, []byte, string) {
+			req := genQuery(rng)
+			req.Id = id
+			rep, what := mutate(rng, mustPack(genReply(rng, req)), class)
+			if len(rep) == 0 {
+				rep = []byte{0}
+			}
+			replies[id] = rep
+
+			return req, rep, what
+		}
+		reqW, _, _ := mk(50, 0)
+		reqA, repA, whatA := mk(100, []int{0, 1, 2, 3, 3, 6}[rng.IntN(6)])
+		reqB, repB, _ := mk(200, 0)
+		split = 1 + rng.IntN(max(1, len(repA)))
+		conf := &forward.UpstreamPlainConfig{Network: forward.NetworkTCP, Address: addr, Timeout: 3 * time.Second}
+		u := forward.NewUpstreamPlain(conf)
+		pauseID, half = 0, nil
+		_ = exch(u, reqW)
+		pauseID, half, release = 100, make(chan struct{}), make(chan struct{})
+		resA := make(chan string, 1)
+		go func() { resA <- exch(u, reqA) }()
+		paused := false
+		select {
+		case <-half:
+			paused = true
+		case <-time.After(2 * time.Second):
+		}
+		gotB := exch(u, reqB)
+		close(release)
+		gotA := <-resA
+		_ = u.Close()
+		half = nil
+		fresh := forward.NewUpstreamPlain(conf)
+		wantA := exch(fresh, reqA)
+		wantB := exch(fresh, reqB)
+		_ = fresh.Close()
+		h.r.Count("exchange.concurrent_tcp")
+		h.r.Case(fmt.Sprintf("concurrent-exchange %x %x %d", repA, repB, split), true)
+		all := gotA + gotB + wantA + wantB
+		if !paused || strings.Contains(all, "i/o timeout") || strings.Contains(all, "deadline exceeded") {
+			h.r.Count("exchange.discarded_timeout")
+
+			continue
+		}
+		replay := map[string]any{"reqA": hex.EncodeToString(mustPack(reqA)), "replyA": hex.EncodeToString(repA),
+			"reqB": hex.EncodeToString(mustPack(reqB)), "replyB": hex.EncodeToString(repB), "split": split}
+		if normErr(gotA) != normErr(wantA) {
+			h.r.Violate("exchange-tcp-concurrent-decode-mixup", fmt.Sprintf(
+				"UpstreamPlain.Exchange over tcp: reply %s (%s) paused after %d bytes while another exchange ran is returned as %q, alone it is returned as %q",
+				clipHex(repA), whatA, split, clip(gotA), clip(wantA)), replay)
+		}
+		if normErr(gotB) != normErr(wantB) {
+			h.r.Violate("exchange-tcp-concurrent-decode-mixup", fmt.Sprintf(
+				"UpstreamPlain.Exchange over tcp: reply %s received while another exchange was paused is returned as %q, alone it is returned as %q",
+				clipHex(repB), clip(gotB), clip(wantB)), replay)
 		}
 	}
 }
